@@ -329,6 +329,9 @@ class Sim:
         self.nontrivial = False
         self.finished = False
         self.outcome = None
+        self.known = {}
+        from collections import Counter as _C
+        self.known_seen = _C()
         # choice 0 of every run: where a swept fault is injected (0 = nowhere); workloads that do
         # not sweep ignore it.  Keeping it at a fixed position lets a sweep patch it (DESIGN 2.5).
         self.inject_choice = source.draw(INJECT_RANGE, "inject-at")
@@ -365,6 +368,26 @@ class Sim:
             self.event("VIOLATION", rule)
         self.abort = True
         raise SimAbort()
+
+    def report(self, rule: str, msg: str, **features) -> bool:
+        """Like fail(), but a violation whose signature is an *open known finding* is only counted and the run
+        continues (so that one listed finding cannot mask a different violation).  Returns True if counted."""
+        v = Violation(rule, msg, features)
+        sig = v.signature()
+        if sig in self.known:
+            self.known_seen[sig] += 1
+            return True
+        self.fail(rule, msg, **features)
+        return False
+
+    def report_post(self, rule: str, msg: str, **features) -> bool:
+        v = Violation(rule, msg, features)
+        sig = v.signature()
+        if sig in self.known:
+            self.known_seen[sig] += 1
+            return True
+        self.fail_post(rule, msg, **features)
+        return False
 
     def fail_post(self, rule: str, msg: str, **features) -> None:
         """History oracle: record the violation without raising."""
